@@ -111,10 +111,13 @@ def wav_table(rep, rule="W-buf"):
     at.rel("0", "<=", "ia")
     at.rel("ia", "<=", "ib")
     at.rel("ib", "<=", "n")
-    ta, tb = Lin.var("ta"), Lin.var("tb")
+    ta, tb, tc = Lin.var("ta"), Lin.var("tb"), Lin.var("tc")
+    ic = Lin.var("ic")
     total = n.scale(W)
     NEW = ("new", Lin.num(0), Lin.var("k").scale(W))  # k new samples
     at.fact_le(Lin.num(0), Lin.var("k"))
+    at.fact_le(n, ic)                      # tc: a time in the appended part, n <= ic <= n + k
+    at.fact_le(ic, n + Lin.var("k"))
     ops = {
         "getFrames": (lambda I, w: I.call_value(I.getattr(w, "getFrames"), [ta, tb], {}), "result", [("orig", ia.scale(W), ib.scale(W))]),
         "deleteSegment": (lambda I, w: I.call_value(I.getattr(w, "deleteSegment"), [ta, tb], {}), "frames", [("orig", Lin.num(0), ia.scale(W)), ("orig", ib.scale(W), total)]),
@@ -122,6 +125,9 @@ def wav_table(rep, rule="W-buf"):
         "replaceSegment": (lambda I, w: I.call_value(I.getattr(w, "replaceSegment"), [ta, tb, BufVal([NEW])], {}), "frames", [("orig", Lin.num(0), ia.scale(W)), NEW, ("orig", ib.scale(W), total)]),
         "concatenate": (lambda I, w: I.call_value(I.getattr(w, "concatenate"), [BufVal([NEW])], {}), "frames", [("orig", Lin.num(0), total), NEW]),
         "getSubwav": (lambda I, w: I.call_value(I.getattr(w, "getSubwav"), [ta, tb], {}), "subwav", [("orig", ia.scale(W), ib.scale(W))]),
+        # a time that lies beyond the original end but inside the grown recording must address the appended samples
+        "concatenate;getFrames": (lambda I, w: (I.call_value(I.getattr(w, "concatenate"), [BufVal([NEW])], {}), I.call_value(I.getattr(w, "getFrames"), [ta, tc], {}))[1],
+                                  "result-grown", [("orig", ia.scale(W), total), ("new", Lin.num(0), (ic - n).scale(W))]),
     }
     for q in ("Wav._getIndexAtTime", "Wav.getFrames", "Wav.deleteSegment", "Wav.insert", "Wav.replaceSegment", "Wav.concatenate", "Wav.getSubwav", "Wav.duration"):
         if idx.try_get(q):
@@ -132,14 +138,16 @@ def wav_table(rep, rule="W-buf"):
     def rows(st):
         out = []
         for name, (call, kind, want) in ops.items():
-            conv = Conv({"ta": "ia", "tb": "ib"})
+            conv = Conv({"ta": "ia", "tb": "ib", "tc": "ic"})
             I = Interp(idx, st, overrides=default_overrides())
             I.builtin_overrides = conv.overrides()
             try:
                 w = I.instantiate(wav_cls, [BufVal([("orig", Lin.num(0), total)]), Lst([Lin.num(1), Lin.num(W), Lin.num(FR), n, "NONE", "not compressed"])], {})
                 res = call(I, w)
                 frames = I.getattr(w, "frames")
-                if kind == "result":
+                if kind == "result-grown":
+                    got, untouched = res, None
+                elif kind == "result":
                     got, untouched = res, frames
                 elif kind == "subwav":
                     got, untouched = I.getattr(res, "frames"), frames
@@ -181,7 +189,7 @@ def wav_table(rep, rule="W-buf"):
         return out
 
     run_states(at, rows, tr)
-    tr.done("6 operations x every weak order of 0 <= ia <= ib <= n (sample indices of the two times; n samples)")
+    tr.done("7 operations x every weak order of 0 <= ia <= ib <= n (sample indices of the two times; n samples; k appended samples)")
 
 
 def file_reads(rep, rule="F-file"):
